@@ -20,7 +20,12 @@ System under test: the instruction sequences `chibicc -S` emits for tiny bodies 
                                  (<= 6 operations) against a sequential specification written from C11 6.5.16.2, 6.5.2.4,
                                  6.5.3.1, 7.17.7 (final object value included), refined by the failure report of
                                  compare-exchange: a failed one must report a value the object can hold, a failed strong
-                                 one never the expected value; livelock; fault/hang/wild write of the code under test
+                                 one never the expected value; a history the specification explains in which the
+                                 expected-value object was stored into AFTER the successful lock cmpxchg of its
+                                 compare-exchange (C11 7.17.7.4: read before the operation, written only on failure;
+                                 the stub of a lock cmpxchg hands the accumulator to the runtime, which therefore knows
+                                 the outcome at the instruction; every body names its expected-value object with
+                                 vp_expected()); livelock; fault/hang/wild write of the code under test
 
 Enumerated (every combination inside the stated bounds, no sampling):
   types      signed/unsigned 1, 2, 4, 8 byte integers, _Bool, int *, float, double                       (TYPES)
@@ -51,6 +56,22 @@ Enumerated (every combination inside the stated bounds, no sampling):
              element of an automatic array, last automatic object of the body, thread-private static memory; quick: on
              *p; thorough: on five lvalue forms and, on *p, crossed with every kind of the expected-address operand
                                                                                                           (STORAGES)
+  shared     the expected-value object is SHARED, i.e. the successful compare-exchange hands it to other threads:
+  expected   (a) Treiber push with the link field of the node being published as the expected-value object, weak-loop
+             and strong spelling (and the spelling with a local one), against a thread that pops, pushes another node
+             and pushes the popped node again (argument = result of the thread's previous operation): 2 threads x (1, 3)
+             and (2, 3) operations, 3 threads x (1, 2, 1); one popping thread per program (no ABA of its own);
+             linearizability judged on the stack contents;  (b) cas_sh / cas_wh: strong / weak compare-exchange on every
+             type and lvalue form whose expected-value object lives in shared memory (vp_shared), against one or two
+             `claim` operations that store into it once they read the desired value from the atomic object;
+             specification state = (atomic object, expected-value object), both final values judged   (STACK_PUSHES, SHX_OPS)
+  ++/--      _Bool objects (++ saturates, -- toggles: the value of b++ at 1 is 1), float at +-2^24 and double at
+             +-2^53 (adding 1 rounds back: the value of x++ is the value the atomic step read, of ++x the value it
+             wrote), besides the small values; += / -= at the same points                                  (values)
+  sizes      objects of 3, 5, 6, 7, 12, 16 bytes (structures, long double): exchange, compare-exchange, and for long
+             double op= and ++/--: compiled one by one; refused with a diagnostic = counted (no promise of atomicity),
+             compiler dies (signal, internal error) = deviation, compiled = counted as unexplored; the same texts on
+             4- and 8-byte structures and double must compile                                     (WIDE_TYPES)
   programs   1x2, 2x1, 2x2, 3x1 (3x2) threads x operations, all schedules or preemption-bounded (plan()); the second
              compare-exchange of a 1x2 program has a stale expected value, so the failure (write-back) path runs
              with every operand kind and every storage (vacuity guard: operand_kinds[*].schedules_with_failed_cas > 0)
@@ -60,7 +81,8 @@ Enumerated (every combination inside the stated bounds, no sampling):
              representations - quiet NaNs with payloads of both signs (bit-identical NaN must be exchanged, a retry
              loop on a NaN must terminate), -0.0 against +0.0 (must fail and report -0.0)                  (RAW_OPS)
 Signature: C16|<op family>[/float]|<lvalue form>[;<operand positions filled with a non-default kind, S = non-default
-           storage of the expected-value object>]|<deviation class>
+           storage of the expected-value object>]|<deviation class>   (lvalue form = "anyform" for the deviation class
+           expected-object-written-after-successful-compare-exchange, which does not depend on it)
 """
 import json, os, re, struct, sys, itertools
 
@@ -69,7 +91,9 @@ if __name__ == "__main__":
 from vlib import core
 
 LEVEL = "model_checking"
-BUDGET = {"quick": 240, "thorough": 1500}
+# VERIF_C16_BUDGET_SCALE stretches the deadlines on a machine shared with many other jobs (the enumeration is the same)
+_SCALE = float(os.environ.get("VERIF_C16_BUDGET_SCALE", "1") or 1)
+BUDGET = {"quick": int(900 * _SCALE), "thorough": int(6000 * _SCALE)}   # deadlines, not expected times
 HARNESS = os.path.join(core.VERIF, "harness")
 
 # =====================================================================================================
@@ -102,12 +126,21 @@ RAW_AS = {"cas_sr": "cas_s", "cas_wr": "cas_w", "xchg_r": "xchg", "casloop_r": "
 # the macros of <stdatomic.h> that are not read-modify-write operations but have object / value operands
 PLAIN_OPS = ["load", "load_x", "store", "store_x", "init"]
 CAS_OPS = ("cas_s", "cas_w", "cas_i", "cas_sr", "cas_wr")
+# compare-exchange whose expected-value object lives in SHARED memory (vp_shared) and is handed over by the successful
+# compare-exchange: the partner operation `claim` writes it as soon as it reads the desired value from the atomic object
+SHX_OPS = ["cas_sh", "cas_wh"]
+LATE_STORE = "expected-object-written-after-successful-compare-exchange"
+FILL_RAW = 0xA5A5A5A5A5A5A5A5                                       # contents of the shared expected-value object before any operation
+# Treiber stack: push with a local expected-value object / with the link field of the node being published as the
+# expected-value object, weak loop and strong spelling; pop (one popping thread per program: no ABA)
+STACK_PUSHES = ["push", "pushn", "pushs"]
 
 
 def ops_for(tn):
     kind = TINFO[tn][4]
     if kind == "bool":
-        return ["and", "or", "xor", "xchg", "xchg_x", "cas_s", "cas_w", "tas", "tas_x", "clear", "clear_x"] + PLAIN_OPS
+        return (["and", "or", "xor", "add", "sub", "preinc", "postinc", "predec", "postdec", "xchg", "xchg_x", "cas_s", "cas_w",
+                 "tas", "tas_x", "clear", "clear_x"] + PLAIN_OPS)
     if kind == "ptr":
         return ["add", "sub", "preinc", "postinc", "predec", "postdec", "xchg", "xchg_x", "cas_s", "cas_w", "casloop"] + PLAIN_OPS
     if kind == "flt":
@@ -132,6 +165,8 @@ def family(op):
         return "fetch"
     if op.startswith("xchg") or op in ("tas", "tas_x"):
         return "exchange"
+    if op in SHX_OPS:
+        return "cas-shared-expected"
     if op.startswith("cas_"):
         return "cas"
     return op                                                     # casloop, push
@@ -196,7 +231,7 @@ def ok_key(ok):
 
 
 def has_expected(op):
-    return op in CAS_OPS or op in ("casloop", "casloop_r")
+    return op in CAS_OPS or op in ("casloop", "casloop_r")          # (SHX_OPS: the storage is fixed - shared memory)
 
 
 def positions(op, form):
@@ -282,7 +317,13 @@ def lvalue(tn, form, akind="priv"):
 
 
 def expected_object(T, storage, var):
-    """-> (declarations incl. registration of the guard bytes, lvalue of the expected-value object, its address)"""
+    """-> (declarations incl. registration of the guard bytes and of the object itself, lvalue of the expected-value
+    object, its address)"""
+    d, lv, addr = expected_object0(T, storage, var)
+    return d + "vp_expected(%s, sizeof(%s)); " % (addr, T), lv, addr
+
+
+def expected_object0(T, storage, var):
     if storage == "local":
         return ("char ge0[8]; %s %s; char ge1[8]; vp_guard(2, ge0, 8, &%s, 0); vp_guard(3, ge1, 8, &%s, 0); " % (T, var, var, var),
                 var, "&" + var)
@@ -398,6 +439,17 @@ def body_text(tn, form, op, okey="", const=None):
                % (T, T, sd, xl, lv, lv, xa, T, xl))
         expr = "o"
         guarded = True
+    elif op in SHX_OPS:
+        # the expected-value object lives in shared memory; it belongs to this thread until the compare-exchange has
+        # succeeded (C11 7.17.7.4: not written on success), afterwards to whoever reads the desired value from the
+        # atomic object (operation claim): it is not read here after a success either
+        pre = ("L rr; %s *px = vp_shared(sizeof(%s)); vp_expected(px, sizeof(%s)); *px = FROM(*e); "
+               "rr = atomic_compare_exchange_%s(&%s, px, %s); if (!rr) *e = TO(*px); " % (T, T, T, "weak" if op == "cas_wh" else "strong", lv, conv))
+        expr = "rr"
+        guarded = True
+    elif op == "claim":
+        pre = "L rr = 0; %s *px = vp_shared(sizeof(%s)); if (atomic_load(&%s) == %s) { *px = FROM(*e); rr = 1; } " % (T, T, lv, conv)
+        expr = "rr"
     elif op == "casloop":
         # the initial read is a separate expression: it always uses the plain designator
         sd, xl, xa = expected_object(T, ok.get("S", "local"), "old")
@@ -461,6 +513,8 @@ void vp_auto_end(long, long);
 void vp_guard(long, void *, long, void *, long);
 void *vp_static(long);
 void vp_body_end(long, long, long);
+void vp_expected(void *, long);
+void *vp_shared(long);
 """
 
 TREIBER = """struct node_t { struct node_t *next; long val; };
@@ -468,10 +522,47 @@ struct tstack { _Atomic(struct node_t *) top; struct node_t nodes[8]; };
 L f_push_p8_treiber(void *p, L a, L *e) {
   struct tstack *s = p; struct node_t *n = &s->nodes[a]; n->val = a;
   char ge0[8]; struct node_t *old; char ge1[8]; vp_guard(2, ge0, 8, &old, 0); vp_guard(3, ge1, 8, &old, 0);
+  vp_expected(&old, sizeof old);
+  if (!a) return 0;
   old = s->top;
   do { n->next = old; } while (!atomic_compare_exchange_weak(&s->top, &old, n));
   vp_body_end(-1, -1, -1);
   return 0;
+}
+/* the usual spelling: the link field of the new node is the expected-value object.  A failed compare-exchange refreshes
+   it; once the compare-exchange has succeeded the node is published and belongs to whoever pops it */
+L f_pushn_p8_treiber(void *p, L a, L *e) {
+  struct tstack *s = p; struct node_t *n = &s->nodes[a];
+  if (!a) return 0;
+  n->val = a;
+  vp_expected(&n->next, sizeof n->next);
+  n->next = atomic_load(&s->top);
+  while (!atomic_compare_exchange_weak(&s->top, &n->next, n))
+    ;
+  return 0;
+}
+L f_pushs_p8_treiber(void *p, L a, L *e) {
+  struct tstack *s = p; struct node_t *n = &s->nodes[a];
+  if (!a) return 0;
+  n->val = a;
+  vp_expected(&n->next, sizeof n->next);
+  for (;;) {
+    n->next = atomic_load(&s->top);
+    if (atomic_compare_exchange_strong(&s->top, &n->next, n))
+      break;
+  }
+  return 0;
+}
+/* one thread per program pops: the top it has read cannot be popped and pushed again behind its back (no ABA) */
+L f_pop_p8_treiber(void *p, L a, L *e) {
+  struct tstack *s = p;
+  char ge0[8]; struct node_t *old; char ge1[8]; vp_guard(2, ge0, 8, &old, 0); vp_guard(3, ge1, 8, &old, 0);
+  vp_expected(&old, sizeof old);
+  old = atomic_load(&s->top);
+  while (old && !atomic_compare_exchange_weak(&s->top, &old, old->next))
+    ;
+  vp_body_end(-1, -1, -1);
+  return old ? old->val : 0;
 }
 L info_p8_treiber(void *arena, L what) {
   struct tstack *s = arena;
@@ -482,6 +573,9 @@ L info_p8_treiber(void *arena, L what) {
   return 0;
 }
 """
+
+
+TREIBER_BODIES = ["f_push_p8_treiber", "f_pushn_p8_treiber", "f_pushs_p8_treiber", "f_pop_p8_treiber"]
 
 
 def conv_macros(tn):
@@ -563,7 +657,7 @@ def unit_source(tn, specs=None, treiber=None, exclude=(), chunk=0):
         opnames.append(n)
     if (treiber if treiber is not None else (tn == "p8" and chunk == 0)) and "f_push_p8_treiber" not in exclude:
         out.append(TREIBER)
-        opnames.append("f_push_p8_treiber")
+        opnames += TREIBER_BODIES
         infos.append(("info_p8_treiber", 1))
     return "".join(out), opnames, infos
 
@@ -693,12 +787,13 @@ def classify(prefixes, mnem, ops):
             kind = "w"
         elif base in RMW_DST or base == "cmpxchg":
             if last:
-                kind = "l" if locked else "u"
+                # k: lock cmpxchg - a locked RMW; its stub also hands the accumulator to the runtime
+                kind = ("k" if base == "cmpxchg" and size in (1, 2, 4, 8) else "l") if locked else "u"
             else:
                 kind = "r"
         else:
             kind = "x"
-        if locked and kind not in ("l",):
+        if locked and kind not in ("l", "k"):
             kind = "l" if kind == "u" else kind
         res.append((o, kind, size))
     return res
@@ -944,13 +1039,40 @@ f_st_objguard:
   movslq %eax, %rax
   movb $0, 4(%rdi)
   ret
+  .globl f_st_latestore
+f_st_latestore:
+  push %rbx
+  push %r12
+  sub $24, %rsp
+  mov %rdi, %rbx
+  mov %rsi, %r12
+  lea 8(%rsp), %rdi
+  mov $4, %esi
+  call vp_expected
+  mov (%rbx), %eax
+  mov %eax, 8(%rsp)
+1:
+  mov 8(%rsp), %eax
+  mov %eax, %edx
+  add %r12d, %edx
+  lock cmpxchg %edx, (%rbx)
+  mov %eax, 8(%rsp)
+  jne 1b
+  mov %edx, %eax
+  movslq %eax, %rax
+  add $24, %rsp
+  pop %r12
+  pop %rbx
+  ret
   .section .note.GNU-stack,"",@progbits
 """
+# f_st_latestore: a correct compare-exchange loop that stores the accumulator into its expected-value object after a success too
 # f_st_preserve: registers, RFLAGS and SSE state survive a scheduling point (stub + coroutine switches)
 # f_st_guard writes into a registered guard region of its frame, f_st_objguard into the byte after the atomic object,
 # f_st_rbx returns with a changed callee-saved register, f_st_evals reports an operand evaluated twice
 SELFTEST_EXPECT = {"f_st_guard": {"bytes-before-expected-object-modified"}, "f_st_rbx": {"callee-saved-rbx-not-preserved"},
                    "f_st_evals": {"operand-A-evaluated-2-times"}, "f_st_objguard": {"bytes-after-atomic-object-modified"},
+                   "f_st_latestore": {LATE_STORE},
                    "f_st_preserve": {None}, "f_st_xadd": {None}, "f_st_opaque": {None}, "f_st_plainrmw": {"unlocked-rmw-on-atomic-object"},
                    "f_st_loadstore": {None, "not-linearizable"}, "f_st_nolock": {"unlocked-cmpxchg-on-atomic-object"}}
 
@@ -1099,7 +1221,12 @@ def binop(tn, op, old, a):
     if kind == "ptr":
         return wrap(tn, old + PTR_SCALE * a if op == "add" else old - PTR_SCALE * a)
     if kind == "flt":
-        return wrap(tn, {"add": old + a, "sub": old - a, "mul": old * a, "div": old / a if op == "div" else 0.0}[op])
+        r = {"add": old + a, "sub": old - a, "mul": old * a, "div": old / a if op == "div" else 0.0}[op]
+        if op in ("add", "sub") and TINFO[tn][2] == 4:
+            # the exact sum of two floats of these magnitudes is a double; one rounding to nearest-even gives the float
+            # sum (2^24 + 1 -> 2^24).  For double, Python's own addition is the IEEE operation (2^53 + 1 -> 2^53).
+            r = struct.unpack("<f", struct.pack("<f", r))[0]
+        return wrap(tn, r)
     if op == "add":
         r = old + a
     elif op == "sub":
@@ -1132,8 +1259,26 @@ def apply_op(tn, op, state, a, exp, variant="c11"):
     """Sequential specification.  -> list of possible (new state, return value as long, expected-after as long).
     variant 'fetch-returns-new' models the known header defect so that it can be told apart from a genuine
     atomicity failure."""
-    if op == "push":
-        return [(state + (a,), 0, exp)]
+    if op in STACK_PUSHES:
+        return [(state + (a,) if a else state, 0, exp)]          # push(0): nothing was popped, nothing is pushed
+    if op == "pop":
+        return [(state[:-1], state[-1], exp)] if state else [(state, 0, exp)]
+    if op in SHX_OPS:
+        # state = (value of the atomic object, representation of the shared expected-value object).  The body stores
+        # the expected value, compares, and on failure (only then) the object's value goes to the expected-value object
+        obj, xr = state
+        x = from_long(tn, exp)
+        if raw(tn, obj) == raw(tn, x):
+            res = [((from_long(tn, a), raw(tn, x)), 1, exp)]
+            if op == "cas_wh":
+                res.append(((obj, raw(tn, x)), 0, as_long(tn, x)))
+            return res
+        return [((obj, raw(tn, obj)), 0, as_long(tn, obj))]
+    if op == "claim":
+        obj, xr = state
+        if obj == from_long(tn, a):
+            return [((obj, raw(tn, from_long(tn, exp))), 1, exp)]
+        return [(state, 0, exp)]
     op = RAW_AS.get(op, op)                                         # representation forms: tn is the integer type of that size
     if op in ("load", "load_x"):
         return [(state, as_long(tn, state), exp)]
@@ -1174,10 +1319,11 @@ def apply_op(tn, op, state, a, exp, variant="c11"):
 
 
 def parse_history(text):
-    """'c0.0 c1.0 r1.0=5:0 r0.0=7:0 F=12 G=- R=- X=- U=-' -> (events, final, flags {G, R, X, U: text or None})"""
+    """'c0.0 c1.0 r1.0=5:0 r0.0=7:0 F=12 G=- R=- X=- U=- W=- [F2=7]' -> (events, final, flags {G, R, X, U, W: text or None,
+    F2: final contents of the shared expected-value object or None})"""
     ev = []
     final = None
-    flags = {"G": None, "R": None, "X": None, "U": None}
+    flags = {"G": None, "R": None, "X": None, "U": None, "W": None, "F2": None}
     for tok in text.split():
         if tok[0] == "c" and tok[1].isdigit():
             t, i = tok[1:].split(".")
@@ -1189,7 +1335,9 @@ def parse_history(text):
             ev.append(("r", int(t), int(i), int(r), int(e)))
         elif tok.startswith("F="):
             final = int(tok[2:])
-        elif tok[:2] in ("G=", "R=", "X=", "U="):
+        elif tok.startswith("F2="):
+            flags["F2"] = int(tok[3:])
+        elif tok[:2] in ("G=", "R=", "X=", "U=", "W="):
             flags[tok[0]] = tok[2:] if tok[2:] != "-" else None
     return ev, final, flags
 
@@ -1223,7 +1371,7 @@ def failure_report_class(tn, prog, events):
     object.  Classes of a history that no linearization explains: a failed compare-exchange reports a value the object
     can never hold; a failed STRONG compare-exchange reports the expected value itself (the weak form may do so:
     spurious failure)."""
-    if prog["obj"].endswith("treiber"):
+    if prog["obj"].endswith("treiber") or prog.get("shx"):
         return None
     held = None
     for ev in events:
@@ -1241,7 +1389,7 @@ def failure_report_class(tn, prog, events):
     return None
 
 
-def linearizable(tn, prog, events, final, variant="c11", retmask=None):
+def linearizable(tn, prog, events, final, variant="c11", retmask=None, final2=None):
     """Is there a total order of the operations, consistent with real time, that the sequential specification
     explains (return values, expected-value objects, final object value)?  Brute force, <= 6 operations."""
     ops = {}
@@ -1258,6 +1406,9 @@ def linearizable(tn, prog, events, final, variant="c11", retmask=None):
     before = {a: [b for b in order if ops[b]["ret"] < ops[a]["call"]] for a in order}
     treiber = prog["obj"].endswith("treiber")
     init = () if treiber else from_long(tn, prog["init"])
+    shx = bool(prog.get("shx"))
+    if shx:
+        init = (init, FILL_RAW & ((1 << (8 * TINFO[tn][2])) - 1))
 
     def same(x, y):
         return x == y if retmask is None else (x & retmask) == (y & retmask)
@@ -1269,12 +1420,16 @@ def linearizable(tn, prog, events, final, variant="c11", retmask=None):
                 for a in reversed(state):
                     v = v * 16 + a
                 return v == final
+            if shx:
+                return raw(tn, state[0]) == final & ((1 << 64) - 1) and final2 is not None and state[1] == final2 & ((1 << 64) - 1)
             return raw(tn, state) == final & ((1 << 64) - 1)
         for a in order:
             if a in done or any(b not in done for b in before[a]):
                 continue
             o = prog["threads"][a[0]][a[1]]
-            for ns, r, e in apply_op(tn, o["op"], state, o["arg"], o["exp"], variant):
+            # "prev": the operation received the result of the thread's previous operation (which has returned)
+            arg = ops[(a[0], a[1] - 1)]["r"] if o.get("carry") else o["arg"]
+            for ns, r, e in apply_op(tn, o["op"], state, arg, o["exp"], variant):
                 if same(r, ops[a]["r"]) and s64(e) == ops[a]["e"]:
                     if rec(done | {a}, ns):
                         return True
@@ -1302,12 +1457,15 @@ def judge(prog, htext):
         return "bytes-%s-%s-object-modified" % (side, {"E": "expected", "O": "atomic"}[who])
     if flags["R"]:
         return "callee-saved-%s-not-preserved" % flags["R"]
-    if linearizable(tn, prog, events, final):
-        return None
+    f2 = flags["F2"]
+    if linearizable(tn, prog, events, final, final2=f2):
+        # C11 7.17.7.4: the expected-value object is written only when the comparison fails.  Judged after the
+        # history, so that a program in which the late store destroys something is reported by what it destroys
+        return LATE_STORE if flags["W"] else None
     size = TINFO[tn][2]
-    if linearizable(tn, prog, events, final, variant="fetch-returns-new"):
+    if linearizable(tn, prog, events, final, variant="fetch-returns-new", final2=f2):
         return "returns-new-value-but-atomic"
-    if size < 8 and linearizable(tn, prog, events, final, retmask=(1 << (8 * size)) - 1):
+    if size < 8 and linearizable(tn, prog, events, final, retmask=(1 << (8 * size)) - 1, final2=f2):
         return "return-value-upper-bits-but-atomic"
     frc = failure_report_class(tn, prog, events)
     if frc:
@@ -1353,8 +1511,13 @@ def values(tn, op, variant):
             return NZ, [[PZ, NA], [NB, NZ], [ONE, PZ]], z
         return None
     if kind == "bool":
+        if family(op) == "incdec" and variant in (0, 1):
+            # _Bool: ++ saturates (1 stays 1, the value of b++ is then 1), -- toggles (0 - 1 converts to 1)
+            return 1 - variant, z, z
         if variant != 0:
             return None
+        if op in ("add", "sub"):
+            return 0, [[1, 0], [0, 1], [1, 1]], z
         if op in ("cas_s", "cas_w"):
             return 0, [[1, 0], [1, 0], [1, 0]], [[0, 1], [0, 1], [0, 1]]
         return {"and": 1, "or": 0, "xor": 0, "xchg": 0, "xchg_x": 0, "tas": 0}[op], [[1, 0], [0, 1], [1, 1]], z
@@ -1383,7 +1546,12 @@ def values(tn, op, variant):
         if op in ("add", "sub", "casloop", "preinc", "postinc", "predec", "postdec"):
             down = op in ("sub", "predec", "postdec")
             if variant == 2:
-                return None
+                # where adding 1 rounds: 2^24 (float), 2^53 (double), negative for the downward operations.  The new
+                # value equals the old one; `x++` must still yield what the atomic step read, `++x` what it wrote
+                if op == "casloop":
+                    return None
+                big = (1 << (24 if size == 4 else 53)) * FLT_SCALE
+                return (-big if down else big), [[1, 4], [2, 4], [4, 1]], z
             return [42, 13 if down else -13][variant], [[1, 8], [2, 16], [4, 32]], z
         if op in ("mul", "div"):
             if variant == 2:
@@ -1485,7 +1653,9 @@ def values(tn, op, variant):
     raise core.HarnessError("no values for %s %s" % (tn, op))
 
 
-CONFIGS = {"2x1": (2, 1), "2x2": (2, 2), "3x1": (3, 1), "1x2": (1, 2), "3x2": (3, 2)}
+CONFIGS = {"2x1": (2, 1), "2x2": (2, 2), "3x1": (3, 1), "1x2": (1, 2), "3x2": (3, 2),
+           # threads with different numbers of operations (value: threads x most operations, for the shard weights)
+           "2x1-2": (2, 2), "2x1-3": (2, 3), "2x2-3": (2, 3), "3x1-2-1": (3, 2)}
 
 
 def make_program(tn, form, op, cfg, variant, bound, partner=None, okey=""):
@@ -1577,6 +1747,46 @@ def treiber_program(cfg, bound):
                         for t in range(nthreads)], "partner": None}
 
 
+def stack_program(spelling, cfg, bound):
+    """Treiber stack with a popping thread.  Thread 0 pushes node 3 (after node 1 in 2x2-3) with the push under
+    `spelling`; thread 1 pops, pushes node 2 and pushes the node it popped again (argument 'prev': the result of its
+    pop; nothing if the stack was empty); in 3x1-2-1 a third thread pushes node 2.  Only thread 1 pops, so the
+    program has no ABA hazard of its own; all pushes of a program use the same spelling.  The history that the
+    link-field spellings need: push(3) succeeds | pop()=3, push(2), push(3) | a late store of thread 0 into node 3."""
+    def o(op, arg, carry=False):
+        return {"op": op, "fn": "f_%s_p8_treiber" % op, "arg": arg, "exp": 0, "form": "treiber", "ok": "", "const": None, "carry": carry}
+    P = spelling
+    threads = {"2x1-3": [[o(P, 3)], [o("pop", 0), o(P, 2), o(P, 0, True)]],
+               "2x2-3": [[o(P, 1), o(P, 3)], [o("pop", 0), o(P, 2), o(P, 0, True)]],
+               "3x1-2-1": [[o(P, 3)], [o("pop", 0), o(P, 0, True)], [o(P, 2)]]}[cfg]
+    return {"id": "%s+pop/p8/treiber/%s/v0/b%s" % (P, cfg, "inf" if bound < 0 else bound), "type": "p8", "form": "treiber",
+            "op": P, "cfg": cfg, "variant": 0, "bound": bound, "obj": "info_p8_treiber", "mode": 0, "init": 0, "ok": "",
+            "threads": threads, "partner": None, "stack": True}
+
+
+def shx_program(tn, form, op, cfg, variant):
+    """Thread 0: one compare-exchange (op in SHX_OPS) that succeeds unless another operation came first, expected-value
+    object in shared memory; thread 1: one or two `claim` operations (desired value seen in the atomic object -> store
+    a new value into the expected-value object).  State of the specification: (atomic object, expected-value object)."""
+    vals = values(tn, "cas_s", variant)
+    if vals is None:
+        return None
+    init, args, exps = vals
+    if from_long(tn, exps[0][0]) != from_long(tn, init):
+        raise core.HarnessError("shared-expected program: the compare-exchange of thread 0 would not succeed")
+    desired = args[0][0]
+    newx = [args[1][0], args[2][0]][:CONFIGS[cfg][1]]
+    if any(from_long(tn, x) == from_long(tn, init) for x in newx):
+        raise core.HarnessError("shared-expected program: the claimed value must differ from the expected value")
+    cform = "deref" if form in AUTO_FORMS else form
+    threads = [[{"op": op, "fn": body_name(tn, form, op), "arg": desired, "exp": exps[0][0], "form": form, "ok": "", "const": None}],
+               [{"op": "claim", "fn": body_name(tn, cform, "claim"), "arg": desired, "exp": x, "form": cform, "ok": "", "const": None}
+                for x in newx]]
+    return {"id": "%s/%s/%s/%s/v%d/binf" % (op, tn, form, cfg, variant), "type": tn, "form": form, "op": op, "cfg": cfg,
+            "variant": variant, "bound": -1, "ok": "", "obj": "info_%s_%s" % (tn, cform), "mode": 1 if form in AUTO_FORMS else 0,
+            "init": init, "threads": threads, "partner": None, "shx": True}
+
+
 def s64(v):
     v &= (1 << 64) - 1
     return v - (1 << 64) if v >> 63 else v
@@ -1588,7 +1798,7 @@ def program_line(p, opidx, objidx, schedule=None, mode="S", pid=None):
     for th in p["threads"]:
         w.append(str(len(th)))
         for o in th:
-            w += [str(opidx[o["fn"]]), str(s64(o["arg"])), str(s64(o["exp"]))]
+            w += [str(opidx[o["fn"]]), "prev" if o.get("carry") else str(s64(o["arg"])), str(s64(o["exp"]))]
     if schedule is not None:
         w += [mode, schedule]
     return " ".join(w)
@@ -1656,6 +1866,20 @@ def plan(tier):
     for cfg, b in ([("1x2", -1), ("2x1", -1), ("2x2", 3), ("3x1", 3)] if quick else
                    [("1x2", -1), ("2x1", -1), ("2x2", -1), ("3x1", 5), ("3x2", 2)]):
         progs.append(treiber_program(cfg, b))
+    # Treiber stack with a popping thread, every push spelling (local expected-value object / the link field of the
+    # node being published, weak loop and strong): the pop - push - push history needs 1 preemption (2 with 3 threads)
+    for sp in STACK_PUSHES:
+        for cfg, b in ([("2x1-3", 2), ("2x2-3", 2), ("3x1-2-1", 2)] if quick else [("2x1-3", -1), ("2x2-3", 3), ("3x1-2-1", 3)]):
+            progs.append(stack_program(sp, cfg, b))
+    # expected-value object in shared memory, written by another thread once the compare-exchange has succeeded
+    for tn in types:
+        for form in (("deref", "global", "auto") if quick else FORMS + AUTO_FORMS):
+            for op in SHX_OPS:
+                for v in (0, 1):
+                    for cfg in ("2x1", "2x1-2"):
+                        p = shx_program(tn, form, op, cfg, v)
+                        if p:
+                            progs.append(p)
     return progs
 
 
@@ -1723,7 +1947,7 @@ def _explore_batch(args):
     st, out, err, crashes = run_programs(binary, [program_line(p, opidx, objidx) for p in progs], [p["id"] for p in progs], timeout)
     summ = {"status": st, "error": None, "timed_out": st == "timeout" or "\nTIMEOUT " in out, "done": [],
             "schedules": 0, "decisions": 0, "validated": 0, "distinct": 0, "by_pre": {}, "by_cfg": {}, "cas_failed": 0,
-            "livelocks": 0, "guardchecks": 0, "bad": {}, "nbad": {}, "samples": [], "selftest": {}, "crashes": crashes, "by_ok": {},
+            "livelocks": 0, "guardchecks": 0, "caswatched": 0, "bad": {}, "nbad": {}, "samples": [], "selftest": {}, "crashes": crashes, "by_ok": {},
             "cas_failed_by_ok": {}}
     if st != "timeout" and (st != 0 or "HARNESS-ERROR" in out):
         m = re.search(r"HARNESS-ERROR.*", out)
@@ -1745,6 +1969,7 @@ def _explore_batch(args):
         summ["validated"] += int(r["stats"]["validated"])
         summ["livelocks"] += int(r["stats"]["livelocks"])
         summ["guardchecks"] += int(r["stats"].get("guardchecks", 0))
+        summ["caswatched"] += int(r["stats"].get("caswatched", 0))
         summ["by_cfg"][p["cfg"]] = summ["by_cfg"].get(p["cfg"], 0) + n
         for kv in r["stats"]["by_pre"].strip(",").split(","):
             k, v = kv.split(":")
@@ -1840,7 +2065,7 @@ def single_case_binary(chibicc, include, wd, prog):
     tn = prog["type"]
     if prog["form"] == "treiber":
         src = PRELUDE + TREIBER
-        opnames, infos = ["f_push_p8_treiber"], [("info_p8_treiber", 1)]
+        opnames, infos = list(TREIBER_BODIES), [("info_p8_treiber", 1)]
     else:
         specs = specs_of_programs([prog])[tn]
         src, opnames, infos = unit_source(tn, specs, treiber=False)
@@ -1853,8 +2078,10 @@ def sig_of(prog, dev):
     atomic operation, e.g. D or A+E+D>]|<deviation class>.  The operand kinds are in the description and the artefact."""
     flt = "/float" if TINFO.get(prog.get("type"), (0, 0, 0, 0, ""))[4] == "flt" else ""
     pos = "+".join(q for q in POSITIONS + "S" if q in ok_parse(prog.get("ok") or ""))
-    return "C16|%s|%s|%s" % (family(prog["op"]) + flt + ("+" + family(prog["partner"]) if prog["partner"] else ""),
-                             prog["form"] + (";" + pos if pos else ""), dev)
+    form = prog["form"] + (";" + pos if pos else "")
+    if dev == LATE_STORE:
+        form = "anyform"          # the store follows the lock cmpxchg whatever designates the object and fills the operands
+    return "C16|%s|%s|%s" % (family(prog["op"]) + flt + ("+" + family(prog["partner"]) if prog["partner"] else ""), form, dev)
 
 
 def replay_main(path):
@@ -1894,7 +2121,8 @@ def replay_main(path):
 
 
 def describe(prog, dev, h):
-    ops = "; ".join("T%d: " % t + ", ".join("%s(arg=%d%s)" % (o["op"], o["arg"], ",exp=%d" % o["exp"] if o["op"].startswith("cas") else "")
+    ops = "; ".join("T%d: " % t + ", ".join("%s(arg=%s%s)" % (o["op"], "result of the previous operation" if o.get("carry") else o["arg"],
+                                                              ",exp=%d" % o["exp"] if o["op"].startswith("cas") or o["op"] == "claim" else "")
                                               for o in th) for t, th in enumerate(prog["threads"]))
     return ("%s on _Atomic %s via %s%s, init=%d, %s: %s; schedule %s (%d preemptions) gives history [%s]"
             % (dev, TINFO[prog["type"]][1], prog["form"], " with operands " + prog["ok"] if prog.get("ok") else "",
@@ -1937,6 +2165,83 @@ def bisect_rejected(ctx, wd, tn, specs, chunk):
     return bad
 
 
+# Objects whose size no lock cmpxchg / xchg operand has (3, 5, 6, 7, 12, 16 bytes: structures, long double).  The
+# explorer has no model of a wider or composite read-modify-write, so these bodies are not explored: each is compiled
+# alone; a compiler that refuses it with a diagnostic has made no promise of atomicity (counted, not a deviation); a
+# compiler that dies on it (signal, "internal error") is reported; one that compiles it is counted as unexplored.
+WIDE_TYPES = [("s3", "struct { char c[3]; }"), ("s5", "struct { char c[5]; }"), ("s6", "struct { short c[3]; }"),
+              ("s7", "struct { char c[7]; }"), ("s12", "struct { int c[3]; }"), ("s16", "struct { long c[2]; }"),
+              ("ld", "long double")]
+WIDE_CONTROLS = [("s4", "struct { char c[4]; }"), ("s8", "struct { int c[2]; }"), ("dbl", "double")]   # must compile
+WIDE_OPS = {"xchg": "W f(W v) { return atomic_exchange(&g, v); }",
+            "cas_s": "int f(W *x, W v) { return atomic_compare_exchange_strong(&g, x, v); }",
+            "cas_w": "int f(W *x, W v) { return atomic_compare_exchange_weak(&g, x, v); }",
+            "add": "W f(W v) { return g += v; }", "sub": "W f(W v) { return g -= v; }", "mul": "W f(W v) { return g *= v; }",
+            "postinc": "W f(void) { return g++; }", "predec": "W f(void) { return --g; }"}
+
+
+def wide_probes():
+    out = []
+    for wn, wt in WIDE_TYPES + WIDE_CONTROLS:
+        for op in sorted(WIDE_OPS):
+            if wn not in ("ld", "dbl") and op not in ("xchg", "cas_s", "cas_w"):
+                continue
+            out.append(("%s_%s" % (op, wn), op, wn,
+                        "#include <stdatomic.h>\ntypedef %s W;\n_Atomic W g;\n%s\n" % (wt, WIDE_OPS[op])))
+    return out
+
+
+def _try_wide(args):
+    chibicc, include, wd, name, src = args
+    c = os.path.join(wd, "wide_%s.c" % name)
+    with open(c, "w") as f:
+        f.write(src)
+    st, o, e = core.run_limited([chibicc, "-cc1", "-I" + include, "-cc1-input", c, "-cc1-output", c + ".s", c], cwd=wd, timeout=60)
+    return name, st, (o + e)[-400:]
+
+
+def run_wide_probes(ctx, wd):
+    probes = wide_probes()
+    res = dict((n, (st, msg)) for n, st, msg in core.pmap(_try_wide, [(ctx.chibicc, ctx.include, wd, n, src) for n, _, _, src in probes]))
+    counts = {"rejected_by_compiler": 0, "compiled_not_explored": 0, "compiler_died": 0, "controls_of_supported_size_compiled": 0}
+    types = dict(WIDE_TYPES + WIDE_CONTROLS)
+    seen = set()
+    for name, op, wn, src in probes:
+        st, msg = res[name]
+        if st == "timeout":
+            raise core.HarnessError("compiling the probe %s timed out" % name)
+        if wn in dict(WIDE_CONTROLS):
+            # the same text on an object of 4 / 8 bytes: shows that a refusal above is about the size
+            if st == 0:
+                counts["controls_of_supported_size_compiled"] += 1
+                continue
+            sig = "C16|%s/control|global|%s" % (family(op), "crash-signal-%d" % -st if isinstance(st, int) and st < 0 else "rejected-by-compiler")
+            if sig not in seen:
+                seen.add(sig)
+                ctx.violation(sig, "%s on an _Atomic object of %s is not compiled: status %s: %s" % (op, types[wn], st, msg.strip()[-300:]),
+                              files={"body.c": src},
+                              replay='$CHIBICC -cc1 -I"$CHIBICC_DIR/include" -cc1-input body.c -cc1-output body.s body.c >/dev/null 2>&1 && exit 0; exit 1')
+            continue
+        if st == 0:
+            counts["compiled_not_explored"] += 1
+        elif isinstance(st, int) and st > 0 and "internal error" not in msg:
+            counts["rejected_by_compiler"] += 1
+        else:
+            counts["compiler_died"] += 1
+            how = "crash-signal-%d" % -st if isinstance(st, int) and st < 0 else "internal-compiler-error"
+            sig = "C16|%s/wide|global|%s" % (family(op), how)
+            if sig in seen:
+                continue
+            seen.add(sig)
+            ctx.violation(sig, "%s on an _Atomic object of %s is neither compiled nor refused with a diagnostic: status %s: %s"
+                          % (op, types[wn], st, msg.strip()[-300:]), files={"body.c": src},
+                          replay='$CHIBICC -cc1 -I"$CHIBICC_DIR/include" -cc1-input body.c -cc1-output body.s body.c >out.txt 2>&1; st=$?; '
+                                 'cat out.txt; [ $st -gt 128 ] && exit 1; grep -q "internal error" out.txt && exit 1; exit 0')
+    if counts["controls_of_supported_size_compiled"] + len(seen) == 0:
+        raise core.HarnessError("vacuous: no control body of the unsupported-size probes")
+    ctx.cover(bodies_on_objects_of_unsupported_size=counts, unsupported_sizes=[t[1] for t in WIDE_TYPES])
+
+
 def run(ctx):
     import time
     wd = ctx.mkdir("c16")
@@ -1964,6 +2269,7 @@ def run(ctx):
     st_stats = rstats.pop("selftest")
     if "prefetchw" not in st_stats["unknown_mnemonics"] or st_stats["split_cmpxchg"] != 1:
         raise core.HarnessError("rewriter self-test: vocabulary/split handling changed: %s" % st_stats)
+    run_wide_probes(ctx, wd)
     ctx.cover(bodies_rejected_by_compiler=len(rejected), build_s=round(time.time() - t_start, 1))
     if any(s["r11_uses"] and s["split_cmpxchg"] for s in rstats.values()):
         raise core.HarnessError("the compiler now uses %r11, which the split of an unlocked cmpxchg needs as scratch register")
@@ -1977,7 +2283,7 @@ def run(ctx):
               rewriter_kinds=kinds, rewriter_unmodelled_operands=sum(s["skipped"] for s in rstats.values()),
               rewriter_got_loads_not_instrumented=sum(s["got_loads"] for s in rstats.values()),
               rewriter_unknown_mnemonics=unknown, rewriter_split_unlocked_cmpxchg=sum(s["split_cmpxchg"] for s in rstats.values()))
-    if kinds.get("l", 0) == 0:
+    if kinds.get("l", 0) + kinds.get("k", 0) == 0:
         raise core.HarnessError("vacuous: no locked read-modify-write instruction in any emitted body")
 
     # ---- explore ----------------------------------------------------------------------------------
@@ -1995,11 +2301,12 @@ def run(ctx):
     done = set()
     schedules = decisions = validated = distinct = cas_failed = livelocks = 0
     by_pre, cfgcount, bad, nbad, by_ok = {}, {}, {}, {}, {}
-    crashes = guardchecks = 0
+    crashes = guardchecks = caswatched = 0
     timed_out = False
     vrep = 0
     for sm in summs:
         guardchecks += sm["guardchecks"]
+        caswatched += sm["caswatched"]
         done.update(sm["done"])
         timed_out = timed_out or sm["timed_out"]
         schedules += sm["schedules"]; decisions += sm["decisions"]; validated += sm["validated"]
@@ -2039,6 +2346,8 @@ def run(ctx):
         raise core.HarnessError("vacuous: no schedule in which a compare-exchange failed")
     if by_pre.get(1, 0) == 0:
         raise core.HarnessError("vacuous: no schedule with a preemption")
+    if caswatched == 0:
+        raise core.HarnessError("vacuous: no successful compare-exchange with a registered expected-value object")
     if guardchecks < schedules:
         raise core.HarnessError("vacuous: %d guard regions examined in %d schedules" % (guardchecks, schedules))
     # operand dimension: every position x kind must have been explored, and for the expected/desired positions of
@@ -2106,6 +2415,7 @@ def run(ctx):
               schedules_by_preemptions={str(k): by_pre[k] for k in sorted(by_pre)}, schedules_by_config=cfgcount,
               schedules_with_failed_cas=cas_failed, violating_schedules_by_sig=nbad,
               schedules_ending_in_crash_of_code_under_test=crashes, guard_regions_examined=guardchecks,
+              successful_compare_exchanges_with_watched_expected_object=caswatched,
               operand_kinds={k: {"programs": v[0], "schedules": v[1], "schedules_with_failed_cas": v[2]} for k, v in sorted(by_ok.items())})
     ctx.cover(rule="every program = (type in %s) x (lvalue form in %s) x (operation of ops_for(type)) x (operand kinds: "
                    "each operand position A=object designator, E=expected address, D=value operand filled with one of "
@@ -2115,8 +2425,16 @@ def run(ctx):
                    "negative zero as representations), ALL schedules or all schedules within the stated preemption bound; "
                    "guard bytes directly before and after every atomic object and every expected-value object are "
                    "examined after every operation, callee-saved registers after every body; a history is judged against "
-                   "the C11 sequential specification by exhaustive linearization"
-                   % ([t[0] for t in TYPES], FORMS + AUTO_FORMS, KINDS, SIDE_KINDS, STORAGES),
+                   "the C11 sequential specification by exhaustive linearization; every store into the expected-value "
+                   "object (named by each body) after the successful lock cmpxchg of its compare-exchange is a deviation; "
+                   "expected-value object in SHARED memory: Treiber push spellings %s x (2 threads x (1,3) and (2,3) ops, "
+                   "3 threads x (1,2,1) ops, one thread pops, pushes and pushes the popped node again), %s on every type x "
+                   "lvalue form against 1 or 2 claim operations writing the handed-over expected-value object; ++/-- also "
+                   "on _Bool and at 2^24 (float) / 2^53 (double); objects of unsupported size %s compiled one by one"
+                   % ([t[0] for t in TYPES], FORMS + AUTO_FORMS, KINDS, SIDE_KINDS, STORAGES, STACK_PUSHES, SHX_OPS,
+                      [t[0] for t in WIDE_TYPES]),
+              shared_expected_object_forms=STACK_PUSHES[1:] + SHX_OPS, stack_program_configs=["2x1-3", "2x2-3", "3x1-2-1"],
+              incdec_value_points=["small", "_Bool 0/1", "float +-2^24", "double +-2^53"],
               types=[t[1] for t in TYPES], operand_positions=list(POSITIONS), operand_kinds_alphabet=["priv", "const"] + KINDS,
               side_effecting_operand_kinds=SIDE_KINDS, expected_object_storages=["local"] + STORAGES,
               representation_value_forms=RAW_OPS, macros_without_rmw=PLAIN_OPS + ["clear", "clear_x"],
@@ -2144,6 +2462,10 @@ def run(ctx):
     ctx.assume("floating atomics: float and double only (no _Atomic long double); arithmetic values are exact multiples "
                "of 0.25 (no rounding); quiet NaNs with payloads and negative zero only as representations handed to "
                "compare-exchange / exchange (no signaling NaN, no arithmetic on them, no infinities)")
+    ctx.assume("expected-value object: chibicc cannot know that an expected-value object is unobservable by other threads (in "
+               "every body its address escapes), so a store into it after a successful compare-exchange is reported for "
+               "thread-private objects too; the store is recognised by the instrumented write/RMW instructions of the "
+               "thread that registered the object (writes of unknown length and opaque instructions are not judged)")
     ctx.assume("guard bytes: 8 bytes on each side of an automatic or static expected-value / atomic object (the whole "
                "aggregate for members and elements); a write further away is seen only if it hits another guard, a "
                "callee-saved register slot or makes the body fault; the memory_order operand and atomic_is_lock_free / "
